@@ -333,6 +333,145 @@ fn run_gated(tracer: &Tracer, rng: &mut StdRng, park_at_open: bool, long: bool, 
     tracer.emit(json!({"ev":"end","listing":w.dir.listing(),"locks":w.dir.lock_files()}));
 }
 
+/// a Warmer that parks the first `warm` call made while it is armed (warmers run on the thread
+/// that called `reload`, before the new searcher is published)
+struct ParkWarmer {
+    st: Arc<(Mutex<ParkState>, Condvar)>,
+}
+#[derive(Default)]
+struct ParkState {
+    armed: bool,
+    parked: bool,
+    released: bool,
+}
+impl tantivy::Warmer for ParkWarmer {
+    fn warm(&self, _searcher: &Searcher) -> tantivy::Result<()> {
+        let (m, cv) = &*self.st;
+        let mut g = m.lock().unwrap();
+        if g.armed && !g.parked {
+            g.parked = true;
+            cv.notify_all();
+            let t0 = std::time::Instant::now();
+            while !g.released && t0.elapsed() < Duration::from_secs(5) {
+                let (g2, _) = cv.wait_timeout(g, Duration::from_millis(20)).unwrap();
+                g = g2;
+            }
+            g.armed = false;
+        }
+        Ok(())
+    }
+    fn garbage_collect(&self, _live_generations: &[&tantivy::SearcherGeneration]) {}
+}
+
+/// Two threads reload ONE IndexReader: thread A is parked after it opened the segments of commit k
+/// and before it publishes its searcher - right after it released the meta lock (directory gate),
+/// or inside its warmer (`in_warmer`) - while the writer commits k+1 and thread B reloads.
+/// Whatever the reader publishes afterwards must not be older than what B was shown.
+fn run_shared(tracer: &Tracer, rng: &mut StdRng, in_warmer: bool, tag: Value) {
+    tracer.reset_canon();
+    let mut cfg = Cfg::default();
+    cfg.threads = 1;
+    cfg.flush_after = pick(rng, &[1u32, 2, 0]);
+    cfg.merge = "none".into();
+    tracer.emit(json!({"ev":"reset","cfg":cfg.to_json(),"tag":tag}));
+    let mut w = World::new_quiet(tracer, &cfg, true);
+    install_sink(tracer, w.regs.clone(), None);
+    w.exec(&json!({"op":"new_writer"}));
+    let mut next_id = 1u64;
+    let mut add_some = |w: &mut World, rng: &mut StdRng| {
+        for _ in 0..rng.random_range(1..4u32) {
+            w.exec(&json!({"op":"add","id":next_id,"t":pick(rng, &["a","b","c"]),"v":next_id as i64}));
+            next_id += 1;
+        }
+    };
+    add_some(&mut w, rng);
+    w.exec(&json!({"op":"commit"}));
+    let st = Arc::new((Mutex::new(ParkState::default()), Condvar::new()));
+    let warmer: Arc<dyn tantivy::Warmer> = Arc::new(ParkWarmer { st: st.clone() });
+    let warmers = if in_warmer { vec![Arc::downgrade(&warmer)] } else { vec![] };
+    let reader: IndexReader = w.index.reader_builder().reload_policy(ReloadPolicy::Manual).warmers(warmers).try_into().expect("reader");
+    if !in_warmer {
+        let st2 = st.clone();
+        w.dir.set_gate(Some(Arc::new(move |op: &OpInfo, after: bool| {
+            if op.role == "shared-A" && op.op == "delete" && op.path == ".tantivy-meta.lock" && after {
+                let (m, cv) = &*st2;
+                let mut g = m.lock().unwrap();
+                if g.armed && !g.parked {
+                    g.parked = true;
+                    cv.notify_all();
+                    let t0 = std::time::Instant::now();
+                    while !g.released && t0.elapsed() < Duration::from_secs(5) {
+                        let (g2, _) = cv.wait_timeout(g, Duration::from_millis(20)).unwrap();
+                        g = g2;
+                    }
+                    g.armed = false;
+                }
+            }
+        })));
+    }
+    tracer.emit(json!({"ev":"reader_new","r":5,"ok":true,"remote":false}));
+    add_some(&mut w, rng);
+    w.exec(&json!({"op":"commit"}));
+    st.0.lock().unwrap().armed = true;
+    let reload_in = |name: &'static str, reader: IndexReader, t: Tracer| {
+        std::thread::Builder::new()
+            .name(format!("shared-{name}"))
+            .spawn(move || {
+                t.emit(json!({"ev":"reload_start","r":5,"t":name}));
+                match reader.reload() {
+                    Ok(()) => {
+                        let s = reader.searcher();
+                        let obs = obs_of(&s, &t);
+                        t.emit(json!({"ev":"reload","r":5,"t":name,"ok":true,"gen":0,"obs":obs}));
+                    }
+                    Err(e) => {
+                        t.emit(json!({"ev":"reload","r":5,"t":name,"ok":false,"gen":0,"err":format!("{e:?}").chars().take(200).collect::<String>()}));
+                    }
+                }
+            })
+            .unwrap()
+    };
+    let ha = reload_in("A", reader.clone(), tracer.clone());
+    let parked = {
+        let (m, cv) = &*st;
+        let mut g = m.lock().unwrap();
+        let t0 = std::time::Instant::now();
+        while !g.parked && t0.elapsed() < Duration::from_secs(3) {
+            let (g2, _) = cv.wait_timeout(g, Duration::from_millis(10)).unwrap();
+            g = g2;
+        }
+        g.parked
+    };
+    // A holds the searcher of the second commit, unpublished: one more commit, and B reloads
+    add_some(&mut w, rng);
+    w.exec(&json!({"op":"commit"}));
+    let hb = reload_in("B", reader.clone(), tracer.clone());
+    // B either finishes (reloads are not serialised) or waits for A (they are): release A after a while
+    let t0 = std::time::Instant::now();
+    while !hb.is_finished() && t0.elapsed() < Duration::from_millis(300) {
+        std::thread::sleep(Duration::from_millis(5));
+    }
+    let b_overtook = hb.is_finished();
+    {
+        let (m, cv) = &*st;
+        m.lock().unwrap().released = true;
+        cv.notify_all();
+    }
+    let _ = ha.join();
+    let _ = hb.join();
+    // what the reader publishes now, without another reload
+    let s = reader.searcher();
+    let obs = obs_of(&s, tracer);
+    tracer.emit(json!({"ev":"peek","r":5,"obs":obs}));
+    w.dir.set_gate(None);
+    tracer.emit(json!({"ev":"schedule","name":if in_warmer { "reload parked in its warmer while a commit completes and a second thread reloads the same IndexReader" } else { "reload parked right after it released the meta lock while a commit completes and a second thread reloads the same IndexReader" },"realised":parked,"second_reload_overtook":b_overtook}));
+    drop(reader);
+    drop(warmer);
+    w.exec(&json!({"op":"wait_merges"}));
+    tantivy::verif::set_sink(None);
+    tracer.emit(json!({"ev":"end","listing":w.dir.listing(),"locks":w.dir.lock_files()}));
+}
+
 fn main() {
     let a = Args::parse();
     let mode = a.pos.get(0).cloned().unwrap_or_default();
@@ -354,8 +493,13 @@ fn main() {
                 run_gated(&tracer, &mut rng, r % 2 == 1, long, json!({"seed":seed,"run":r,"gated":true,"long":long}));
             }
         }
+        "shared" => {
+            for r in 0..runs {
+                run_shared(&tracer, &mut rng, r % 3 == 2, json!({"seed":seed,"run":r,"shared":true}));
+            }
+        }
         _ => {
-            eprintln!("usage: reader_driver random|gated ...");
+            eprintln!("usage: reader_driver random|gated|shared ...");
             std::process::exit(2);
         }
     }
